@@ -139,7 +139,7 @@ pub fn c12_check(ck: &mut Checker, sim: &mut Sim, after_boot: bool) {
         }
     }
     for (clause, detail) in findings {
-        if clause == "last_n_not_ancestors_of_tip" {
+        if clause == "last_n_not_ancestors_of_tip" && !ck.c04.last_unnoticed_peer_only {
             if let Some((c4, fork)) = ck.c04.unnoticed.last().cloned() {
                 // consequence of a fork the client could not notice: old-branch headers are
                 // merged into the remembered window
@@ -577,6 +577,9 @@ pub struct C04State {
     pub from_genesis_requests: u64,
     /// branch switches the client could not notice (no reorg section / child fast path): (clause, fork point)
     pub unnoticed: Vec<(String, u64)>,
+    /// the latest entry of `unnoticed` is the per-peer variant only: the stored tip had already
+    /// followed the new branch (with a rollback) when this peer's proven header moved over
+    pub last_unnoticed_peer_only: bool,
     /// per session: when the from-genesis recheck was requested from it, was the peer's own
     /// proven tip the stored tip (so that its reorg section was computed relative to what the
     /// client remembers)? With it: (stored tip hash, stored tip number) at that moment.
@@ -766,6 +769,7 @@ pub fn c04_after(ck: &mut Checker, sim: &mut Sim, session: usize, _p: Proto, _d:
                         "fork_unnoticed_when_start_was_rebased_below_the_fork".to_string(),
                         fork,
                     ));
+                    ck.c04.last_unnoticed_peer_only = true;
                     peer_switch = true;
                 }
             }
@@ -842,6 +846,7 @@ pub fn c04_after(ck: &mut Checker, sim: &mut Sim, session: usize, _p: Proto, _d:
     };
     if clause != "fork_switch_without_rollback" {
         ck.c04.unnoticed.push((clause.to_string(), fork));
+        ck.c04.last_unnoticed_peer_only = false;
     }
     // the numbers can look rolled back (a set_scripts rewind, a script registered at fork + 1)
     // although nothing was: look for history entries of abandoned blocks
